@@ -6,8 +6,8 @@
    [PWrite n false]; failed flushes, compactions and manifest writes are retried and leave no committed
    edit.  Hence the crash-safety theorem covers every such history, with "clean close and reopen" being the
    strongest admissible image.  PARTIAL: in-memory visibility while running (the errored batch is not in the
-   write buffer) and read-path errors are checked on the implementation only; sequence-number gaps left by
-   failed journal writes are not represented in the model. *)
+   write buffer) and read-path errors are checked on the implementation only.  A journal write that failed
+   altogether is the step [PSkipSeq n] (nothing durable, sequence numbers consumed). *)
 From GL Require Import Store.Crash Store.CrashProofs.
 From Coq Require Import Arith Lia.
 
@@ -34,7 +34,7 @@ Print Assumptions C08_clean_close_is_image.
    without advancing the sequence number, the next (acknowledged) batch c reuses it, and recovery skips c. *)
 Definition unfixed_sync_failure (s : pstate) (n : N) : pstate :=
   {| p_live := jappend (p_live s) {| b_seq := p_seq s + 1; b_n := n |} false; p_frozen := p_frozen s;
-     p_fedit := p_fedit s; p_man := p_man s; p_msynced := p_msynced s; p_seq := p_seq s;
+     p_fedit := p_fedit s; p_fseq := p_fseq s; p_man := p_man s; p_msynced := p_msynced s; p_seq := p_seq s;
      p_issued := p_issued s ++ [{| b_seq := p_seq s + 1; b_n := n |}]; p_acked := p_acked s |}.
 
 Example C08_sync_failure_reuses_seq_refuted :
